@@ -174,6 +174,7 @@ def run_case(spec):
                 )
     counters[f"solver_{spec['solver']}"] += 1
     counters["hermitian" if hermitian else "nonhermitian"] += 1
+    counters["normal_nonhermitian_plain_bases"] += int(bool(spec.get("normal")) and any(not isinstance(e, tuple) for e in expl))
     counters["complex_cases"] += int(spec["complex"])
     counters["degenerate_explicit_level"] += int(spec["degenerate"] and max(sizes) >= 2)
     counters["multi_explicit_blocks"] += int(len(sizes) >= 2)
